@@ -67,7 +67,7 @@ def check(tier, seed):
     ref = {}
     for cfg, feats, rc, out, err in dres:
         if cfg == cfgs[0]:
-            ref = dict(l.split() for l in out.strip().split('\n') if l.split() and l.split()[0] in ('44', '65', '87'))
+            ref = {l.split()[0]: ' '.join(l.split()[1:]) for l in out.strip().split('\n') if l.split() and l.split()[0] in ('44', '65', '87')}
     if len(ref) != 3:
         rep.violation('harness', ['digest default configuration'], {'note': 'default configuration digest did not run', 'out': str(dres[:1])[:500]}, False)
     for cfg, feats, rc, out, err in dres:
@@ -76,7 +76,12 @@ def check(tier, seed):
         if rc != 0:
             rep.violation('implementation-vs-oracle', [f"digest --features {feats}"], {'config': feats, 'stderr': err, 'oracle': 'digest program must build and run in every configuration'}, True)
             continue
-        got = dict(l.split() for l in out.strip().split('\n') if l.split() and l.split()[0] in ('44', '65', '87'))
+        got = {l.split()[0]: ' '.join(l.split()[1:]) for l in out.strip().split('\n') if l.split() and l.split()[0] in ('44', '65', '87')}
+        own = [s_ for s_, v in got.items() if not v.endswith('own-signatures-rejected-or-panicked 0')]
+        if own:
+            rep.violation('implementation-vs-oracle', [f"digest --features {feats}"], {'config': feats, 'digests': got,
+                                                                                       'oracle': 'every one of the 700 bulk signatures must be produced without panic and verify under the matching key'}, True)
+            continue
         enabled = [n for n, on in zip(('44', '65', '87'), cfg[:3]) if on]
         bad = [s for s in enabled if got.get(s) != ref.get(s)] + [s for s in got if s not in enabled]
         if bad:
